@@ -345,6 +345,11 @@ func (st *SymbolTable) DisableBuiltin(names ...string) {
 
 	for _, n := range names {
 		root.disabledBuiltins[n] = struct{}{}
+		// a builtin symbol cached in the root scope by an earlier Resolve call
+		// must not stay reachable after the name is disabled.
+		if s, ok := root.store[n]; ok && s.Scope == ScopeBuiltin {
+			delete(root.store, n)
+		}
 	}
 }
 
